@@ -4,8 +4,5 @@ set -e
 cd "$(dirname "$0")"
 . ./env.sh
 mkdir -p bin evidence
-if ! (cd lint && go build -o ../bin/raftlint ./cmd/raftlint) ; then
-  echo "setup: build with x/tools v0.50.0 failed, retrying with v0.29.0" >&2
-  (cd lint && sed -i 's/golang.org\/x\/tools v0.50.0/golang.org\/x\/tools v0.29.0/' go.mod && go mod tidy && go build -o ../bin/raftlint ./cmd/raftlint)
-fi
+(cd lint && go build -o ../bin/raftlint ./cmd/raftlint)
 echo "setup: built bin/raftlint"
